@@ -17,7 +17,7 @@ one() {
   wt=/tmp/gvc-sw/$id-$p; sv=/tmp/gvc-sw/$id-$p.verif
   rm -rf $wt $sv; git -C /repo worktree prune
   git -C /repo worktree add --detach -q $wt HEAD 2>/dev/null || { echo "$id $p NOWORKTREE"; return; }
-  if ! git -C $wt apply /verif/seeded/$id/patch.diff 2>/dev/null; then echo "$id $p NOAPPLY"; git -C /repo worktree remove --force $wt; return; fi
+  if ! git -C $wt apply ${SEED_DIR:-/verif/seeded}/$id/patch.diff 2>/dev/null; then echo "$id $p NOAPPLY"; git -C /repo worktree remove --force $wt; return; fi
   # contracts: the ones in /repo's working tree (they may be ahead of HEAD while contracts are being written)
   for f in zz_verif_contracts.go spec/zz_verif_contracts.go fclient/zz_verif_contracts.go tokens/zz_verif_contracts.go; do cp /repo/$f $wt/$f; done
   mkdir -p $sv/work $sv/evidence
@@ -26,6 +26,6 @@ one() {
   if [ $rc -eq 1 ] && grep -q '^VIOLATION' /verif/work/par/$id-$p.out; then echo "$id $p CAUGHT"; else echo "$id $p MISSED rc=$rc $(tail -1 /verif/work/par/$id-$p.out | cut -c1-150)"; fi
   git -C /repo worktree remove --force $wt; rm -rf $sv
 }
-export -f one
+export -f one; export SEED_DIR
 printf '%s\n' "$@" | xargs -P $J -I{} bash -c 'one {}'
 git -C /repo worktree prune
